@@ -436,6 +436,20 @@ fn judge<B: FA, H: HA<B>>(k: &Kit<H>, kind: &str, honest: &Op<H::Digest>, hidx: 
             op.depth,
             short(hidx)
         );
+        // a changed *shape* (surplus / missing nodes, vectors, leaves, another depth) must not be
+        // accepted even when the claims stay true: the statement asks for an error on every shape
+        // change; value / position mutations that leave every claim true (all-equal leaves) are fine
+        let shape_kind = kind.starts_with("add-") || kind.starts_with("drop-") || kind.starts_with("depth-");
+        ensure!(
+            unchanged || !shape_kind,
+            format!("{kind}/accepted-changed-shape"),
+            "{name}: verify_batch accepted an opening whose shape was changed ({kind}): {} leaves for {} positions, node vectors {:?} (honest {:?}), depth {}; the claimed leaves are still the committed ones",
+            op.leaves.len(),
+            idx.len(),
+            op.nodes.iter().map(|v| v.len()).collect::<Vec<_>>(),
+            honest.nodes.iter().map(|v| v.len()).collect::<Vec<_>>(),
+            op.depth
+        );
         if !unchanged {
             obs.label(format!("accepted-claims-still-true:{kind}"));
         }
@@ -886,7 +900,7 @@ impl SubCheck for SampledPos {
         "sampled-openings".into()
     }
     fn cases(&self, tier: Tier) -> u64 {
-        tier.pick(30_000, 600_000)
+        tier.pick(24_000, 400_000)
     }
     fn watchdog_secs(&self) -> u64 {
         30
@@ -927,14 +941,14 @@ impl SubCheck for SampledNeg {
         "sampled-mutations".into()
     }
     fn cases(&self, tier: Tier) -> u64 {
-        tier.pick(25_000, 600_000)
+        tier.pick(20_000, 400_000)
     }
     fn watchdog_secs(&self) -> u64 {
         60
     }
     fn rule(&self) -> String {
         format!(
-            "same trees and position sets as sampled-openings; one mutation kind per case, applied at every place it applies or, where there are more than 10 places, at 10-11 of them spread evenly incl. the first and last (batch kinds: {:?}; single-path kinds on the first position: {:?}); result must be Err unless every claimed (position, leaf) is committed, never a panic; non-trivial = at least one mutant evaluated; distinct by case",
+            "same trees and position sets as sampled-openings; one mutation kind per case, applied at every place it applies or, where there are more than 10 places, at 10-11 of them spread evenly incl. the first and last (batch kinds: {:?}; single-path kinds on the first position: {:?}); result must be Err unless every claimed (position, leaf) is committed and the shape of the opening is unchanged, never a panic; non-trivial = at least one mutant evaluated; distinct by case",
             self.kinds, self.path_kinds
         )
     }
@@ -1015,7 +1029,7 @@ pub fn run(run: &mut Run) {
     });
     run.enumerate(
         "exhaustive-mutations-d1-3",
-        "all six hashers x depth 1..3 x every non-empty position subset x {sorted, odd ranks first} x {distinct, all-equal} leaves x every mutation kind (each applied at every place it applies: every leaf / node / position and bit / vector): verify_batch must return Err unless every claimed (position, leaf) is committed and the list is non-empty, distinct, in range; verify_batch and into_paths must not panic; into_paths must not return a resolving path for an uncommitted leaf; non-trivial = at least one mutant of the kind exists",
+        "all six hashers x depth 1..3 x every non-empty position subset x {sorted, odd ranks first} x {distinct, all-equal} leaves x every mutation kind (each applied at every place it applies: every leaf / node / position and bit / vector): verify_batch must return Err unless every claimed (position, leaf) is committed, the list is non-empty, distinct, in range and the shape of the opening (number of leaves, node vectors, nodes per vector, depth) is the honest one; verify_batch and into_paths must not panic; into_paths must not return a resolving path for an uncommitted leaf; non-trivial = at least one mutant of the kind exists",
         true,
         neg_small,
         |c: &ExCase, obs: &mut Obs| with_hasher!(c.hasher, ex_negative(c, obs)),
